@@ -348,4 +348,31 @@ def shapeEntry (units : Bool) (p : Param) : Str × Shaped :=
 
 def exportData (units : Bool) (data : List Param) : List (Str × Shaped) := data.map (shapeEntry units)
 
+/-! ## the exporter object over a history of calls (`__init__`, `select`, `parse`) -/
+
+/-- one call on an exporter object; `α` = the options `parse` takes -/
+inductive Call (α : Type)
+  | select (query : Option Str) (tags : Option (List Str))
+  | parse (opts : α)
+
+/-- `ExportConfig` : the environment and `self.data` (the current selection) -/
+structure ExporterObj where
+  env : List Param
+  data : List Param
+
+/-- `__init__` : `self.data = self.env.data(self.dtype)` -/
+def ExporterObj.init (env : List Param) : ExporterObj := ⟨env, env⟩
+
+/-- the texts a history of calls returns, in order (`parse` reads `self.data`, `select` replaces it) -/
+def runCalls {α β : Type} (exportF : α → List Param → β) : List (Call α) → ExporterObj → List β
+  | [], _ => []
+  | .select q t :: rest, o => runCalls exportF rest { o with data := select q t o.env }
+  | .parse opts :: rest, o => exportF opts o.data :: runCalls exportF rest o
+
+/-- the selection in force after a history: that of the last `select`, everything when there was none -/
+def currentSelection {α : Type} (env : List Param) : List (Call α) → List Param → List Param
+  | [], cur => cur
+  | .select q t :: rest, _ => currentSelection env rest (select q t env)
+  | .parse _ :: rest, cur => currentSelection env rest cur
+
 end SciVerif.C19
